@@ -17,7 +17,8 @@ F = CFGF
 SUB = [Opt('int', b'a', 0, 1), Opt('sec', b'in', 0, None, [Opt('int', b'z', 0, 0)])]
 SCHEMA = [Opt('int', b'i', 0, 7), Opt('str', b's', 0, b'd'), Opt('intl', b'il', 0, b'{1}'), Opt('bool', b'b', 0, 0),
           Opt('flt', b'f', 0, 0.5), Opt('sec', b'sec', 0, None, SUB), Opt('sec', b't', F['MULTI'] | F['TITLE'], None, SUB),
-          Opt('sec', b'kv', F['KEYSTRVAL'], None, []), Opt('func', b'include', func='include'), Opt('func', b'fn', func='user:0')]
+          Opt('sec', b'kv', F['KEYSTRVAL'], None, []), Opt('func', b'include', func='include'), Opt('func', b'fn', func='user:0'),
+          Opt('ptr', b'np', 0, cbs=('noparse:0',)), Opt('ptrl', b'npl', 0, None, cbs=('noparse:0',))]      # pointer options declared without a value parser
 
 # (text, newlines it contains)
 NOISE = [(b'# c\n', 1), (b'// c\n', 1), (b'/* a\nb */ ', 1), (b'/**/', 0), (b'\n', 1), (b'  \t', 0), (b's = "m\nl"\n', 2),
@@ -30,7 +31,7 @@ ERRORS = [(b'bogus = 1', 0), (b'i = x', 0), (b'i = = 2', 0), (b'i 5', 0), (b'i =
           (b's = "x\ny\\8"', 1), (b'i = 99999999999999999999', 0), (b'kv { k = = }', 0), (b'b = maybe', 0), (b'f = 1.5x', 0),
           (b'i += 1', 0), (b'sec = 1', 0), (b'fn 1', 0), (b'sec {\n in {\n z = q\n}\n}', 2), (b't "x" {\n a = \n= }', 2),
           (b'il = {1 2}', 0), (b', ', 0), (b'i = {', 0), (b'"" = 1', 0), (b'"|foo" = 1', 0), (b'"sec|" = 1', 0), (b'"|" = 1', 0),
-          (b'"sec=|a" = 1', 0), (b'"kv|x" = 1', 0), (b'kv|x = 1', 0), (b'"t=\'x\'y|a" = 1', 0), (b'"sec|in" = 1', 0)]
+          (b'"sec=|a" = 1', 0), (b'"kv|x" = 1', 0), (b'kv|x = 1', 0), (b'np = x', 0), (b'npl = {x}', 0), (b'npl += y', 0), (b'"t=\'x\'y|a" = 1', 0), (b'"sec|in" = 1', 0)]
 # errors that are only detected at the end of the input: the line is that of the last byte
 EOF_ERRORS = [b'sec { a = 1', b'i =', b"s = 'unterminated\n\n", b's = "unterminated\n', b'/* unterminated\n\n', b'il = {1,', b'fn(a',
               b't "x"', b'i']
